@@ -200,6 +200,23 @@ class It:
         return "it@%d" % self.pos
 
 
+class RIt(It):
+    """reverse iterator: position counted from the back"""
+    def copy_value(self):
+        return RIt(self.vec, self.pos)
+
+    def arith(self, op, n):
+        if isinstance(n, It):
+            return self.pos - n.pos
+        return RIt(self.vec, self.pos + (int(n) if op == "+" else -int(n)))
+
+    def deref(self):
+        i = len(self.vec.items) - 1 - self.pos
+        if not (0 <= i < len(self.vec.items)):
+            raise OutOfBounds("dereference of a reverse iterator at position %d of a vector of %d elements" % (self.pos, len(self.vec.items)))
+        return self.vec.items[i]
+
+
 class Buf:
     """fixed-size array of cells (char buf[N])"""
     def __init__(self, n):
@@ -316,6 +333,10 @@ def vector_hooks():
         "method:begin": lambda ev, o, a: It(o, 0),
         "method:cbegin": lambda ev, o, a: It(o, 0),
         "method:end": lambda ev, o, a: It(o, len(o.items)),
+        "method:rbegin": lambda ev, o, a: RIt(o, 0),
+        "method:crbegin": lambda ev, o, a: RIt(o, 0),
+        "method:rend": lambda ev, o, a: RIt(o, len(o.items)),
+        "method:crend": lambda ev, o, a: RIt(o, len(o.items)),
         "method:cend": lambda ev, o, a: It(o, len(o.items)),
         "method:push_back": lambda ev, o, a: o.items.append(_cp(a[0])),
         "method:emplace_back": lambda ev, o, a: o.items.append(_cp(a[0])) if len(a) == 1 else (_ for _ in ()).throw(Broken("emplace_back with %d arguments" % len(a))),
@@ -464,6 +485,11 @@ class CxxEvaluator(Evaluator):
         k = e.get("k")
         if k == "other" and e.get("cls") in ("CompoundLiteralExpr", "MaterializeTemporaryExpr", "CXXBindTemporaryExpr", "ExprWithCleanups") and e.get("sub"):
             return self.eval(e["sub"][0], env, this)
+        if k == "ilist" and (e.get("t") or "").replace("const ", "") not in self.structs and self.prog is not None:
+            t = (e.get("t") or "").replace("const ", "")
+            rec = self.prog.records.get(t)
+            if rec is not None and rec.get("fields") and not rec.get("bases") and len(e.get("a", [])) <= len(rec["fields"]):
+                self.structs[t] = [f["n"] for f in rec["fields"]]     # aggregate initialisation of a repository struct
         if k == "ilist" and (e.get("t") or "").replace("const ", "") in self.structs:
             t = e["t"].replace("const ", "")
             vals = [self.eval(a, env, this) for a in e["a"]]
@@ -494,6 +520,9 @@ class CxxEvaluator(Evaluator):
                     return VarPtr(lambda: getattr(b, nm, None), lambda v: setattr(b, nm, conv(v, vt)), nm)
         if k == "ctor":
             c = (e.get("c") or "")
+            h = self.hook_for("ctor:" + c)
+            if h is not None:
+                return h(self, None, [self.eval(a, env, this) for a in e.get("a", [])])
             if not e.get("a") and self.hook_for("ctor:" + c) is None:
                 d = self._default(c)
                 if d is not None:
@@ -504,6 +533,16 @@ class CxxEvaluator(Evaluator):
             f = self.prog.funcs.get(e.get("fid")) if (self.prog is not None and e.get("own")) else None
             if f is not None and not e.get("implicit") and self.hook_for("ctor:" + c) is None and (f.get("body") is not None or f.get("inits")):
                 return self.construct(f, Obj(c), [self.eval(a, env, this) for a in e["a"]])
+            if c.startswith("std::vector<") and self.hook_for("ctor:" + c) is None:
+                vals = [self.eval(a, env, this) for a in e.get("a", [])
+                        if not (isinstance(unwrap(a), dict) and unwrap(a).get("k") == "ctor" and (unwrap(a).get("c") or "").startswith("std::allocator<"))]
+                if not vals:
+                    return Vec([], "vector")
+                if len(vals) == 1 and isinstance(vals[0], list):
+                    return Vec([_cp(x) for x in vals[0]], "vector")
+                if len(vals) == 1 and isinstance(vals[0], Vec):
+                    return vals[0].copy_value()
+                raise Broken("vector constructor with unmodelled arguments at %s" % e.get("l"))
             if len(e.get("a", [])) == 1 and (e.get("cm") or "__normal_iterator<" in c):
                 v = self.eval(e["a"][0], env, this)
                 return v.copy_value() if hasattr(v, "copy_value") else v
